@@ -519,7 +519,7 @@ def run(ctx: core.Ctx):
     ]
     from harness.translate import tarith
 
-    errs = tarith.write({"threshold_args_to_match_weight", "prob_to_match_weight", "prob_to_bayes_factor"})  # the model's threshold conversion is the translated source
+    errs = tarith.write({"threshold_args_to_match_weight", "prob_to_match_weight", "prob_to_bayes_factor", "bayes_factor_to_prob", "match_weight_to_bayes_factor"})  # the model's threshold conversion is the translated source
     ctx.lean = core.lean_check(PROP, ctx.thorough)
     if errs:
         ctx.lean.ok = False
